@@ -78,8 +78,65 @@ func renderQuery(o *obligation, withModel bool, extra []string) string {
 			strExt = append(strExt, f)
 		}
 	}
+	// package axioms are only relevant if they share a declared (uninterpreted) function symbol with the rest of
+	// the query; irrelevant quantified axioms only perturb the solvers' heuristics
+	funSyms := func(t *T, into map[string]bool) {
+		var walk func(u *T)
+		walk = func(u *T) {
+			if len(u.args) > 0 {
+				if _, ok := c.d.funs[u.op]; ok {
+					into[u.op] = true
+				}
+				for _, a := range u.args {
+					walk(a)
+				}
+			}
+		}
+		walk(t)
+	}
+	dropAxiom := map[*T]bool{}
+	if len(c.axiomAsserts) > 0 {
+		used := map[string]bool{}
+		funSyms(o.goal, used)
+		var axs []*T
+		for _, a := range o.pc {
+			if c.axiomAsserts[a] {
+				axs = append(axs, a)
+			} else {
+				funSyms(a, used)
+			}
+		}
+		axSyms := map[*T]map[string]bool{}
+		for _, a := range axs {
+			m := map[string]bool{}
+			funSyms(a, m)
+			axSyms[a] = m
+			dropAxiom[a] = true
+		}
+		for changed := true; changed; {
+			changed = false
+			for _, a := range axs {
+				if !dropAxiom[a] {
+					continue
+				}
+				for sname := range axSyms[a] {
+					if used[sname] {
+						dropAxiom[a] = false
+						for s2 := range axSyms[a] {
+							used[s2] = true
+						}
+						changed = true
+						break
+					}
+				}
+			}
+		}
+	}
 	for i := len(o.pc) - 1; i >= 0; i-- {
 		a := o.pc[i]
+		if dropAxiom[a] {
+			continue
+		}
 		if n, d := isDef(a); d {
 			if !needed[n] {
 				continue
